@@ -35,8 +35,9 @@ def run_replay_file(path, timeout=900):
 class Lemma:
     """Spec-level obligation (independent of the code): build() -> (hyps, goal)."""
 
-    def __init__(self, name, build, note=""):
+    def __init__(self, name, build, note="", meta=None):
         self.name, self.build, self.note = name, build, note
+        self.meta = dict(meta or {})      # e.g. {"sum_monotone": True}: lemma schemas to instantiate for this obligation
 
 
 class Bounded:
@@ -139,7 +140,7 @@ def do_check(pid, tier, seed, args, t0):
     for lm in getattr(M, "LEMMAS", []):
         try:
             hyps, goal = lm.build()
-            lemma_obls.append(verify.Obligation(f"{pid}.lemma.{lm.name}", hyps, goal, {"lemma": True}))
+            lemma_obls.append(verify.Obligation(f"{pid}.lemma.{lm.name}", hyps, goal, {"lemma": True, **getattr(lm, "meta", {})}))
         except Exception as e:
             errors.append(f"lemma {lm.name}: {type(e).__name__}: {e}")
     if lemma_obls:
